@@ -8,6 +8,7 @@
 package e4
 
 import (
+	"time"
 	"bytes"
 	"encoding/json"
 	"fmt"
@@ -32,8 +33,8 @@ import (
 
 type AddrInfo struct {
 	Spelling, Resolved, Bound string
-	ResOK, BindOK            bool
-	Port                     int
+	ResOK, BindOK             bool
+	Port                      int
 }
 
 type Engine struct {
@@ -313,10 +314,40 @@ func decodeAny(b []byte) (any, bool) {
 	return v, true
 }
 
-func (e *Engine) do(h http.Handler, method, path string, browser bool, body string) resp {
+// slowBody delivers a request body in two parts with a pause between them (a client on a slow
+// connection): handlers that decode the body while they hold a lock hold it that long.
+type slowBody struct {
+	data  []byte
+	pos   int
+	pause time.Duration
+	slept bool
+}
+
+func (b *slowBody) Read(p []byte) (int, error) {
+	if b.pos >= len(b.data) {
+		return 0, io.EOF
+	}
+	end := len(b.data)
+	if !b.slept {
+		if b.pos > 0 {
+			time.Sleep(b.pause)
+			b.slept = true
+		} else if half := len(b.data) / 2; half > 0 {
+			end = half
+		}
+	}
+	n := copy(p, b.data[b.pos:end])
+	b.pos += n
+	return n, nil
+}
+
+func (e *Engine) do(h http.Handler, method, path string, browser bool, body string, pause ...time.Duration) resp {
 	var rd io.Reader
 	if body != "-" {
 		rd = strings.NewReader(body)
+		if len(pause) > 0 && pause[0] > 0 {
+			rd = &slowBody{data: []byte(body), pause: pause[0]}
+		}
 	}
 	req := httptest.NewRequest(method, path, rd)
 	if browser {
